@@ -25,9 +25,12 @@ impl Cfg {
         let mut c = walrus::ModuleConfig::new();
         c.generate_name_section(self.names);
         c.generate_producers_section(self.producers);
-        c.generate_dwarf(self.dwarf);
         c.only_stable_features(self.stable);
+        // order matters in walrus: generate_dwarf(true) *implies* preserve_code_transform, and a
+        // later preserve_code_transform(false) would silently undo that; the natural order is used
+        // here, the other order is a dedicated C10 case
         c.preserve_code_transform(self.preserve_ct);
+        c.generate_dwarf(self.dwarf);
         c.generate_synthetic_names_for_anonymous_items(self.synthetic);
         c
     }
